@@ -139,4 +139,11 @@ TEXT = {
         "design_ref": "DESIGN.md section 2, C20",
         "level_note": "Trusted base: strace 6.1 syscall injection (kill lands before the call executes - probed), the helper's thread pinning, production constructors as the reload oracle. No torn-write / fsync modelling.",
     },
+    "C03": {
+        "engine": "E1 bubble world + E4 child server",
+        "technique": "structure-aware fuzzing / property-based testing (rapid, native go fuzz in thorough): hostile streams derived by mutation from valid sessions, run concurrently with well-behaved clients; invariant oracle on process survival, sentinel liveness at exact quiescence, and post-state; plus a child-process engine for the real accept loops",
+        "level_text": "Generated hostile byte streams on control and transfer connections, before and after login, concurrently with well-behaved clients. Liveness is decided without latency thresholds in the bubble (reply present when the world is quiescent; a real-time watchdog reports a wedge). The child-process engine reaches code the in-process engines cannot (Serve, per-address limiter table) and observes process death directly. Sampled inputs and schedules.",
+        "design_ref": "DESIGN.md section 2, C03",
+        "level_note": "Trusted base: mutation grammar over hlref encodings, hlsim, synctest; loopback source-address binding for the child engine; race reports are filtered to map accesses (the only race class the runtime turns into process death).",
+    },
 }
